@@ -46,6 +46,7 @@ struct Stats {
   uint64_t spawns = 0;
   uint64_t syncPoints = 0;   // fine-grained sync points passed
   uint64_t syncYields = 0;   // ... that became decisions
+  uint64_t syncBySite[12] = {0, 0, 0, 0, 0, 0, 0, 0, 0, 0, 0, 0};  // per sync-point kind (9 = mutex)
   uint64_t mutexBlocks = 0;  // lock attempts that found the mutex held
   uint64_t hash = 0;         // hash of every decision taken (the interleaving)
   uint64_t nondefault = 0;   // decisions that differ from the default policy
